@@ -46,7 +46,10 @@ def plan(tier, seed):
     return [dict(seed=seed, shard=i, n=per) for i in range(n)]
 
 
-def classify(tag, log):
+def classify(tag, log, desc=None):
+    if tag == "c04" and isinstance(desc, dict) and desc.get("avars2") and \
+            "invalid access to map value" in log:
+        return "two-array-maps-share-the-base-register"
     if "BPF_ATOMIC stores into R9 pkt" in log:
         return "atomic-add-on-packet-variable"
     if re.search(r"invalid shift \d+", log):
@@ -69,7 +72,7 @@ def submit(tag, mk, res, desc=None):
             res.count(f"not_accepted[{tag}]")
             return None
         except (TypeError, AttributeError, ValueError, KeyError,
-                IndexError) as ex:
+                IndexError, __import__("struct").error) as ex:
             res.count(f"generator_crash[{tag}]")
             return None
         shape = [ins[0] for ins in ebpfvm.Program(ld.code).insns]
@@ -88,7 +91,7 @@ def submit(tag, mk, res, desc=None):
             return True
         except OSError as ex:
             log = str(ex)
-            res.violation(classify(tag, log),
+            res.violation(classify(tag, log, desc),
                           f"{tag}: assembled program rejected by the "
                           f"verifier: {log.strip().splitlines()[-2:]}",
                           case=dict(family=tag, desc=desc),
